@@ -473,6 +473,9 @@ def rule_receivers(rm, em):
             bad_o = []
             for o in origins:
                 if o.kind == 'callres' and o.data.ruid and (o.data.ruid in rm.lm.can_lock):
+                    w = _own_name_lookup(rm, em, b, o.data)
+                    if w:
+                        bad_o.append(w)
                     continue
                 if o.kind == 'callres' and hm_method(o.data) in ('get', 'get_key_value') and reg_class_of_call(o.data) in ('REGISTRY', 'CONTEXT'):
                     continue
@@ -484,6 +487,39 @@ def rule_receivers(rm, em):
             else:
                 obs.append(ok('RECV', key, 'handler receiver is the result of a lookup call in this evaluation', h.where()))
     return obs
+
+
+def _own_name_lookup(rm, em, b, c):
+    """the registry lookup a handler comes from is made under the node's own operator / function name: the callee is a
+    keyed reader (hands its &str key unchanged to the locking body; every other registry read it makes uses that key
+    too) and the key argument is the name field of the evaluated node.  Returns a complaint or None."""
+    prog = rm.prog
+    g = prog.by_id.get(c.ruid)
+    if g is None or g.id not in rm.reach_reg_lock and g.id not in rm.reg_lockers:
+        return None              # a context lookup: WDISP's subject
+    keyed = keyed_readers(rm)
+    strs = [k for k in range(1, g.arg_count + 1) if _is_str_ty(g.locals[k]['ty'])]
+    if not strs:
+        return None              # no name handed in: nothing to compare (a getter on a record already read)
+    if g.id not in keyed:
+        return 'the handler comes from %s, which does not look its name parameter up unchanged (the registry is read under a derived name: the handler registered for the name in the expression is not the one invoked)' % g.name
+    # every registry read below g uses the key
+    for c2 in g.live_calls:
+        if c2.ruid in keyed and keyed[c2.ruid] - 1 < len(c2.args):
+            o = single_origin(trace_operand(g, c2.args[keyed[c2.ruid] - 1], through_calls=THROUGH))
+            if not (o is not None and o.kind == 'param' and not o.proj and o.data == keyed[g.id]):
+                return '%s also reads the registry under another name than the one it was given' % g.name
+    k = keyed[g.id] - 1
+    if k >= len(c.args):
+        return None
+    p = em.prov_of_operand(b, c.args[k])
+    import r_order
+    root = r_order.prov_root(p) if p is not None else None
+    if root is None:
+        if getattr(b, 'orig_id', b.id) not in em.eval_ids and not getattr(b, 'is_view', False):
+            return None          # a helper below the evaluator: the name is what its caller handed it
+        return 'the registry is not read under the name stored in the node (%s)' % r_order.prov_str(p)
+    return None
 
 
 def _param_from_lookup(rm, em, b, o):
@@ -607,17 +643,13 @@ def _is_str_ty(ty):
     return bool(re.match(r"^&('\w+ )?(str|std::string::String)$", ty))
 
 
-def rule_reg_record(rm):
-    """one decision, one lookup: a body that needs several fields of the record registered under one name (an infix
-    operator's type *and* its handler, its precedence *and* its associativity) reads them in ONE lock acquisition.
-    Two keyed reads of the same registry with the same key in one body can straddle a re-registration: the body then
-    acts on a record that was never registered (type of the old registration, handler of the new one)."""
-    import r_parse, r_misc
+def keyed_readers(rm):
+    """keyed readers: bodies that take a &str key and (transitively) hand it, unchanged, to a body that locks a
+    registry.  body id -> parameter index of the key"""
+    if getattr(rm, '_keyed', None) is not None:
+        return rm._keyed
     prog = rm.prog
-    obs = []
-    reg_statics = {st['id'] for st in prog.f.statics if r_misc.classify_static(st) == 'REGISTRY'}
-    # keyed readers: take a &str key and (transitively) hand it, unchanged, to a body that locks a registry
-    keyed = {}       # body id -> parameter index of the key
+    keyed = {}
     for g in prog.bodies:
         if g.id in rm.reg_lockers and not g.is_closure:
             ks = [k for k in range(1, g.arg_count + 1) if _is_str_ty(g.locals[k]['ty'])]
@@ -636,6 +668,20 @@ def rule_reg_record(rm):
                         keyed[g.id] = o.data
                         changed = True
                         break
+    rm._keyed = keyed
+    return keyed
+
+
+def rule_reg_record(rm):
+    """one decision, one lookup: a body that needs several fields of the record registered under one name (an infix
+    operator's type *and* its handler, its precedence *and* its associativity) reads them in ONE lock acquisition.
+    Two keyed reads of the same registry with the same key in one body can straddle a re-registration: the body then
+    acts on a record that was never registered (type of the old registration, handler of the new one)."""
+    import r_parse, r_misc
+    prog = rm.prog
+    obs = []
+    reg_statics = {st['id'] for st in prog.f.statics if r_misc.classify_static(st) == 'REGISTRY'}
+    keyed = keyed_readers(rm)
     stat_of = {}
     def statics(uid):
         # which registry a keyed reader reads: the registry statics it reaches, or (a method on a manager that was
